@@ -75,7 +75,6 @@ SPECS = [
          calls={'.get_available_units': ('apply_recv', [0])}),
     dict(file='resource.py', cls='IResource', func='get_nearest_availability_date', coq_name='src_nearest',
          params={'start_date': ('start_date', 'Z'), 'direction': ('direction', 'Z'), 'max_days': ('max_days', 'Z')},
-         defaults={'max_days': '100000'},
          signature=[('gau', ('fun', ['Z'], 'num', True)), ('start_date', 'Z'), ('direction', 'Z'), ('max_days', 'Z')],
          ret='Z', locals={'step': 'Z', 'start_date': 'Z'},
          while_fuel='(S (Z.to_nat max_days))',
